@@ -9,6 +9,8 @@ table = json.load(open(os.environ["PLAN_TABLE"]))
 key = os.path.relpath(os.getcwd(), root) + "|" + rel
 if what == "plan":
     default = rel if table.get("mode") == "path" else os.path.basename(rel)
+    if "known" in table and key not in table["known"]:
+        default += "~again"      # not an entry of the initial tree
     sys.stdout.write(table["plan"].get(key, default))
 else:
     sys.stdout.write(str(table["order"].get(key, 0)))
